@@ -4,7 +4,7 @@
 
 use std::str::FromStr;
 
-use anyhow::{Context, Result};
+use anyhow::{anyhow, Context, Result};
 use bstr::{BString, ByteSlice};
 
 use crate::{
@@ -45,6 +45,12 @@ pub(super) fn dispatch(repo: &gix::Repository, matches: &clap::ArgMatches) -> Re
         current_branch_name = repo.get_current_branch()?.get_branch_partial_name()?;
         (&current_branch_name, names[0])
     };
+
+    if old_branchname.as_ref() as &str == new_branchname.as_ref() as &str {
+        return Err(anyhow!(
+            "branch `{old_branchname}` cannot be renamed to itself"
+        ));
+    }
 
     let stupid = repo.stupid();
     let parent_branchname = super::get_stgit_parent(&repo.config_snapshot(), old_branchname);
